@@ -30,8 +30,6 @@ Proof.
   exists lookup_abc, (Not (Not (F [97]))), w_not_paren. repeat split.
   - exact rexpr_not_paren.
   - intros x [<-|[]]. reflexivity.
-  - unfold len_ok. cbn. lia.
-  - exact oob_not_paren.
 Qed.
 Print Assumptions C11_iffeature_correct_refuted.
 
@@ -69,7 +67,7 @@ Example C11_hypotheses_satisfiable :
   rexpr ex_e (render_min 2 ex_e) /\ (forall x, In x (feats ex_e) -> lookup_abc x = Some x) /\
   not_cancel_adjacent (render_min 2 ex_e) = true /\ len_ok (render_min 2 ex_e) /\
   compile lookup_abc true (render_min 2 ex_e)
-    = IOk ([246; 55; 243], [Some [97]; Some [98]; Some [99]; Some [97]], 4).
+    = IOk ([246; 52; 3], [Some [97]; Some [98]; Some [99]; Some [97]], 4).
 Proof.
   split; [exact (render_min_rexpr ex_e ex_e_names)|]. split; [|split; [|split]].
   - intros x Hx. cbn in Hx. repeat (destruct Hx as [<-|Hx]; [reflexivity|]). destruct Hx.
